@@ -314,12 +314,17 @@ class RedshiftBinningFactory:
     ) -> Binning:
         """Creates a binning linear in comoving distance between a min and max
         redshift."""
-        comov_min, comov_cmax = self.cosmology.comoving_distance([min, max])
+        comoving_distance = self.cosmology.comoving_distance
+        comov_min, comov_cmax = comoving_distance([min, max])
         comov_edges = np.linspace(comov_min, comov_cmax, num_bins + 1)
         if not isinstance(comov_edges, units.Quantity):
+            # custom cosmologies return plain numbers in Mpc
             comov_edges = comov_edges * units.Mpc
 
-        edges = z_at_value(self.cosmology.comoving_distance, comov_edges)
+            def comoving_distance(z):
+                return self.cosmology.comoving_distance(z) * units.Mpc
+
+        edges = z_at_value(comoving_distance, comov_edges)
         return Binning(edges.value, closed=closed)
 
     def logspace(
